@@ -45,6 +45,8 @@ type c09wsTunnel struct {
 	CLen    int           `json:"client_bytes"`
 	ULen    int           `json:"upstream_bytes"`
 	UEarly  int           `json:"upstream_bytes_before_client_eof,omitempty"`
+	CEarly  int           `json:"client_bytes_before_upstream_eof,omitempty"`
+	Through bool          `json:"other_side_keeps_sending_without_waiting_for_eof,omitempty"`
 	Order   string        `json:"close_order"`
 	Fault   string        `json:"fault,omitempty"`
 	CStalls int           `json:"client_reader_stalls,omitempty"`
@@ -61,7 +63,8 @@ type c09wsScenario struct {
 	Table   string         `json:"table"`
 }
 
-var c09wsOrders = []string{"client-first", "upstream-first", "simultaneous", "halfclose", "client-abrupt", "upstream-abrupt"}
+// "halfclose" is the client half-closing first, "upstream-halfclose" its mirror (see c09Gen in proxy/tcp).
+var c09wsOrders = []string{"client-first", "upstream-first", "simultaneous", "halfclose", "client-abrupt", "upstream-abrupt", "upstream-halfclose"}
 var c09wsMark = []byte("\r\n\r\n")
 
 func c09wsSize(g *simcore.Tape, max int) int {
@@ -104,6 +107,12 @@ func c09wsGen(g *simcore.Tape, thorough bool) *c09wsScenario {
 		if t.Order == "halfclose" && t.ULen > 0 {
 			t.UEarly = g.Intn(t.ULen)
 		}
+		if t.Order == "upstream-halfclose" && t.CLen > 0 {
+			t.CEarly = g.Intn(t.CLen)
+		}
+		if t.Order == "halfclose" || t.Order == "upstream-halfclose" {
+			t.Through = g.Chance(40)
+		}
 		if g.Chance(12) {
 			t.Fault = simcore.Pick(g, []string{"reset-client", "reset-upstream"})
 		}
@@ -120,26 +129,39 @@ func c09wsGen(g *simcore.Tape, thorough bool) *c09wsScenario {
 		t.c = simpeer.Stream(g, t.CLen, 0xC0000000|uint32(j)<<20)
 		t.u = simpeer.Stream(g, t.ULen, 0x50000000|uint32(j)<<20)
 
+		// half-close orders: the side that does not half-close sends a first part of its stream, then
+		// (unless Through) waits for the end of the incoming stream, then sends the rest (>= 1 byte)
+		second := func(n int) []simpeer.Act {
+			var a []simpeer.Act
+			if !t.Through {
+				a = append(a, act(simpeer.AwaitEOF, 0))
+			}
+			return append(a, c09wsWrites(simpeer.Chunks(g, n, 12))...)
+		}
+		cFirst := t.CLen
+		if t.Order == "upstream-halfclose" {
+			cFirst = t.CEarly
+		}
 		// client: request (+ stream), either in one PRNG write pattern or waiting for the 101 in between
 		ca := []simpeer.Act{act(simpeer.Dial, 0)}
 		var cw []simpeer.Act
 		if t.Early {
-			cw = c09wsWrites(simpeer.Chunks(g, len(t.req)+len(t.c), 24))
-			ca = append(ca, cw...)
+			cw = c09wsWrites(simpeer.Chunks(g, len(t.req)+cFirst, 24))
 		} else {
 			cw = c09wsWrites(simpeer.Chunks(g, len(t.req), 4))
-			ca = append(ca, cw...)
-			ca = append(ca, act(simpeer.AwaitHead, 0))
-			w2 := c09wsWrites(simpeer.Chunks(g, len(t.c), 24))
-			ca = append(ca, w2...)
-			cw = append(cw, w2...)
+			cw = append(cw, act(simpeer.AwaitHead, 0))
+			cw = append(cw, c09wsWrites(simpeer.Chunks(g, cFirst, 24))...)
 		}
+		if t.Order == "upstream-halfclose" {
+			cw = append(cw, second(t.CLen-t.CEarly)...)
+		}
+		ca = append(ca, cw...)
 		// upstream: read the request head, then the 101 head + stream in one PRNG write pattern
 		ua := []simpeer.Act{act(simpeer.AwaitHead, 0)}
-		var uw, ureply []simpeer.Act
+		var uw []simpeer.Act
 		if t.Order == "halfclose" {
 			uw = c09wsWrites(simpeer.Chunks(g, len(t.resp)+t.UEarly, 12))
-			ureply = c09wsWrites(simpeer.Chunks(g, t.ULen-t.UEarly, 12))
+			uw = append(uw, second(t.ULen-t.UEarly)...)
 		} else {
 			uw = c09wsWrites(simpeer.Chunks(g, len(t.resp)+t.ULen, 24))
 		}
@@ -155,10 +177,12 @@ func c09wsGen(g *simcore.Tape, thorough bool) *c09wsScenario {
 			ca = append(ca, act(simpeer.Await, t.ULen), act(simpeer.Close, 0))
 			ua = append(ua, act(simpeer.Await, t.CLen), act(simpeer.Close, 0))
 		case "halfclose":
+			// both sides close only after they have seen the end of the other side's stream
 			ca = append(ca, act(simpeer.CloseWrite, 0), act(simpeer.AwaitEOF, 0), act(simpeer.Close, 0))
-			ua = append(ua, act(simpeer.AwaitEOF, 0))
-			ua = append(ua, ureply...)
-			ua = append(ua, act(simpeer.Close, 0))
+			ua = append(ua, act(simpeer.AwaitEOF, 0), act(simpeer.Close, 0))
+		case "upstream-halfclose":
+			ua = append(ua, act(simpeer.CloseWrite, 0), act(simpeer.AwaitEOF, 0), act(simpeer.Close, 0))
+			ca = append(ca, act(simpeer.AwaitEOF, 0), act(simpeer.Close, 0))
 		case "client-abrupt":
 			ca = append(ca, act(simpeer.Close, 0))
 			ua = append(ua, act(simpeer.AwaitEOF, 0), act(simpeer.Close, 0))
@@ -293,7 +317,17 @@ func c09wsCheck(r *simcore.Run, t *c09wsTunnel) {
 		}
 		return
 	}
-	kUp, atUp := simpeer.Diff(t.c, upRest)
+	wantUp := t.c
+	if t.Order == "upstream-halfclose" && !t.Through && len(wantUp) > t.CEarly {
+		if ended, _ := t.cl.ReadEnd(); !ended {
+			// the client sends the rest once it has seen the end of the upstream's stream and never saw
+			// it: that a close is passed on is demanded only of the client's half-close, so only what the
+			// client did send is demanded here
+			wantUp = wantUp[:t.CEarly]
+			r.Probe("upstream_eof_not_propagated")
+		}
+	}
+	kUp, atUp := simpeer.Diff(wantUp, upRest)
 	kCl, atCl := simpeer.Diff(t.u, clRest)
 	if t.Fault != "" {
 		if kUp != "" && kUp != "truncated" {
@@ -312,6 +346,11 @@ func c09wsCheck(r *simcore.Run, t *c09wsTunnel) {
 		}
 		return
 	}
+	if t.Order == "upstream-halfclose" && kCl == "" && kUp == "truncated" {
+		_, cwrote := t.cl.Progress()
+		r.Fail("halfclose", "client-stream-cut-after-upstream-finished"+path, "%s: the upstream sent its %d bytes, half-closed and kept reading; all of its bytes reached the client, which had %d more bytes to send (it could write %d of its %d+%d, write error: %v), but the upstream received only %d of the client's %d bytes", what, len(t.u), len(t.c)-t.CEarly, cwrote, len(t.req), len(t.c), t.cl.WriteErr(), len(upRest), len(t.c))
+		return
+	}
 	fail := func(dir, kind string, at, got, want int) {
 		r.Fail("stream", dir+"/"+kind+path, "%s: %s stream differs from what was sent at offset %d: %s (received %d bytes, sent %d)", what, dir, at, kind, got, want)
 	}
@@ -327,6 +366,9 @@ func c09wsCheck(r *simcore.Run, t *c09wsTunnel) {
 			r.Probe("complete_but_close_not_propagated")
 		}
 		r.Probe("order_" + t.Order)
+		if t.Through {
+			r.Probe("order_" + t.Order + "_without_waiting")
+		}
 		if t.Early && t.CLen > 0 {
 			r.Probe("client_stream_sent_before_101")
 		}
